@@ -160,3 +160,70 @@ pub fn set_sync_tick(period: std::time::Duration) {
 pub fn sync_tick() -> std::time::Duration {
     std::time::Duration::from_millis(SYNC_TICK_MS.load(std::sync::atomic::Ordering::SeqCst))
 }
+
+/// A mutation was handed to the task distributor `dist` (emitted before it is queued, so
+/// that it is logged before any batch that can contain it).
+pub fn dist_enqueue(dist: usize, mutation: &crate::replication::Mutation) {
+    use crate::replication::Mutation;
+    datacake_crdt::verif::emit(|seq| {
+        let (kind, ks, items): (&str, &str, Vec<(u64, datacake_crdt::HLCTimestamp)>) = match mutation {
+            Mutation::Put { keyspace, doc } => ("put", keyspace, vec![(doc.id(), doc.last_updated())]),
+            Mutation::MultiPut { keyspace, docs } => (
+                "mput",
+                keyspace,
+                docs.iter().map(|d| (d.id(), d.last_updated())).collect(),
+            ),
+            Mutation::Del { keyspace, doc } => ("del", keyspace, vec![(doc.id, doc.last_updated)]),
+            Mutation::MultiDel { keyspace, docs } => (
+                "mdel",
+                keyspace,
+                docs.iter().map(|d| (d.id, d.last_updated)).collect(),
+            ),
+        };
+        format!(
+            "{{\"ev\":\"dist_enq\",\"seq\":{},\"dist\":{},\"kind\":\"{}\",\"ks\":{:?},\"items\":{}}}",
+            seq,
+            dist,
+            kind,
+            ks,
+            items_json(&items)
+        )
+    });
+}
+
+/// The task distributor `dist` built the batch it is about to send to `members`.
+pub fn dist_batch(
+    dist: usize,
+    batch: &crate::rpc::services::consistency_impl::BatchPayload,
+    members: impl Iterator<Item = u8>,
+) {
+    datacake_crdt::verif::emit(|seq| {
+        let modified: Vec<String> = batch
+            .modified
+            .iter()
+            .map(|p| {
+                let items: Vec<(u64, datacake_crdt::HLCTimestamp)> =
+                    p.documents.iter().map(|d| (d.id(), d.last_updated())).collect();
+                format!("{{\"ks\":{:?},\"items\":{}}}", p.keyspace, items_json(&items))
+            })
+            .collect();
+        let removed: Vec<String> = batch
+            .removed
+            .iter()
+            .map(|p| {
+                let items: Vec<(u64, datacake_crdt::HLCTimestamp)> =
+                    p.documents.iter().map(|d| (d.id, d.last_updated)).collect();
+                format!("{{\"ks\":{:?},\"items\":{}}}", p.keyspace, items_json(&items))
+            })
+            .collect();
+        let members: Vec<String> = members.map(|m| m.to_string()).collect();
+        format!(
+            "{{\"ev\":\"dist_batch\",\"seq\":{},\"dist\":{},\"modified\":[{}],\"removed\":[{}],\"members\":[{}]}}",
+            seq,
+            dist,
+            modified.join(","),
+            removed.join(","),
+            members.join(",")
+        )
+    });
+}
